@@ -259,6 +259,7 @@ func TestVerifC18(t *testing.T) {
 		profile: func(i int, rng *vrng) coreProfile {
 			p := defaultProfile()
 			p.name, p.forge = "forged-timestamps", 25
+			p.reconf, p.keepMode = 4, true // NoDelay (mode argument negative = unchanged) / WndSize mid-life
 			return p
 		},
 		nontriv: func(info coreCaseInfo, s *coreSim) bool { return info.forged || info.retrans },
